@@ -346,6 +346,9 @@ class Sampler(ABC):
         """
         if state['metadata']['sampler_type'] != self.__class__.__name__:
             raise ValueError(f"Sampler type in state dictionary ({state['metadata']['sampler_type']}) does not match the type of the sampler ({self.__class__.__name__}).")
+
+        # A sampler that has not been initialized yet would initialize (and thereby overwrite the state set here) at its next use
+        self._ensure_initialized()
         
         for key, value in state['state'].items():
             if key in self._STATE_KEYS:
@@ -369,6 +372,9 @@ class Sampler(ABC):
         """ Set the history of the sampler. """
         if history['metadata']['sampler_type'] != self.__class__.__name__:
             raise ValueError(f"Sampler type in history dictionary ({history['metadata']['sampler_type']}) does not match the type of the sampler ({self.__class__.__name__}).")
+
+        # As for the state: initializing later would discard the history set here
+        self._ensure_initialized()
         
         for key, value in history['history'].items():
             if key in self._HISTORY_KEYS:
